@@ -42,18 +42,18 @@ func (e *env) singletons(sc *scene, versions []string, only stringSet) bool {
 			obs := e.observe(c, sc.Image, sc.Against)
 			if obs.ParseErr != "" || obs.Err != "" {
 				e.r.Violate(sc.Kind+"/singleton/error", "a single known rule cannot be run on its own: "+obs.ParseErr+obs.Err,
-					violationCase{Config: c, YAML: c.yaml(), Sources: sc.Sources})
+					violationCase{Oracle: "judge", Config: c, YAML: c.yaml(), Sources: sc.Sources})
 				return false
 			}
 			for _, a := range obs.Anns {
 				if a.Type != id {
 					e.r.Violate(sc.Kind+"/singleton/foreign-annotation", fmt.Sprintf("rule %s alone reported an annotation of type %s", id, a.Type),
-						violationCase{Config: c, YAML: c.yaml(), Sources: sc.Sources, Observed: keysOf(obs.Anns)})
+						violationCase{Oracle: "judge", Config: c, YAML: c.yaml(), Sources: sc.Sources, Observed: keysOf(obs.Anns)})
 					return false
 				}
 				if sc.Kind == "lint" && sc.Src.Imports[a.Path] {
 					e.r.Violate("lint/import-file-reported/singleton", "an import-only file was reported by lint",
-						violationCase{Config: c, YAML: c.yaml(), Sources: sc.Sources, Observed: keysOf(obs.Anns)})
+						violationCase{Oracle: "judge", Config: c, YAML: c.yaml(), Sources: sc.Sources, Observed: keysOf(obs.Anns)})
 					return false
 				}
 			}
@@ -85,7 +85,7 @@ func (e *env) judge(sc *scene, c cfg, tag string) outcome {
 	obs := e.observe(c, sc.Image, sc.Against)
 	out := outcome{C: c, Obs: obs, Selected: sel}
 	vc := func(exp, got []string, detail string) violationCase {
-		return violationCase{Config: c, YAML: c.yaml(), Comments: sc.Src.Comments, Sources: sc.Sources, Expected: exp, Observed: got, Detail: detail}
+		return violationCase{Oracle: "judge", Config: c, YAML: c.yaml(), Comments: sc.Src.Comments, Sources: sc.Sources, Expected: exp, Observed: got, Detail: detail}
 	}
 	if obs.ParseErr != "" {
 		r.Violate(sc.Kind+"/config-rejected-by-parser", "buf.yaml of known IDs and in-module paths was rejected: "+obs.ParseErr, vc(nil, nil, obs.ParseErr))
@@ -355,7 +355,7 @@ func (e *env) monotone(sc *scene, base, with outcome, kind string, inScope func(
 	for k, a := range with.ObsSet {
 		if _, ok := base.ObsSet[k]; !ok {
 			e.r.Violate("mono/"+sc.Kind+"/"+kind+"/adds-annotation", "adding a suppression added an annotation: "+annKey(a),
-				violationCase{Config: with.C, YAML: with.C.yaml() + "--- without:\n" + base.C.yaml(), Comments: sc.Src.Comments, Sources: sc.Sources, Detail: k})
+				violationCase{Oracle: "mono", Config: with.C, YAML: with.C.yaml() + "--- without:\n" + base.C.yaml(), Comments: sc.Src.Comments, Sources: sc.Sources, Detail: k})
 			return
 		}
 	}
@@ -373,7 +373,7 @@ func (e *env) monotone(sc *scene, base, with outcome, kind string, inScope func(
 				}
 			}
 			e.r.Violate("mono/"+sc.Kind+"/"+kind+"/removes-outside-scope"+detail, "a suppression removed an annotation outside its scope: "+annKey(a),
-				violationCase{Config: with.C, YAML: with.C.yaml() + "--- without:\n" + base.C.yaml(), Comments: sc.Src.Comments, Sources: sc.Sources, Detail: k})
+				violationCase{Oracle: "mono", Config: with.C, YAML: with.C.yaml() + "--- without:\n" + base.C.yaml(), Comments: sc.Src.Comments, Sources: sc.Sources, Detail: k})
 			return
 		}
 	}
@@ -645,7 +645,16 @@ var baseLintComments = []comment{
 }
 
 func (e *env) lintScene(comments []comment, versions []string, only stringSet) (*scene, bool) {
-	bi, err := buildFiles(e.ctx, lintFixture(), comments, lintTargets)
+	return e.lintSceneIn("", comments, versions, only)
+}
+
+// lintSceneIn: the module in a sub-directory of a v2 workspace ("" = at the root).
+func (e *env) lintSceneIn(moduleDir string, comments []comment, versions []string, only stringSet) (*scene, bool) {
+	targets := lintTargets
+	if moduleDir != "" {
+		targets = []string{moduleDir + "/a", moduleDir + "/b"}
+	}
+	bi, err := buildFilesIn(e.ctx, moduleDir, lintFixture(), comments, targets)
 	if err != nil {
 		e.r.Incomplete("lint fixture does not build: " + err.Error())
 		return nil, false
@@ -853,21 +862,21 @@ func (e *env) commentCoverage(sc *scene, placement, tok string, on, off, dflt ou
 // ---------------------------------------------------------------------------------------------
 // Part D: breaking configurations x exclude-imports.
 
-func partD(e *env, versions []string) {
+func (e *env) breakingScene(versions []string) (*scene, bool) {
 	old, new := breakingFixture()
 	oldImage, _, err := buildPlain(e.ctx, old, lintTargets)
 	if err != nil {
 		e.r.Incomplete("breaking fixture (old) does not build: " + err.Error())
-		return
+		return nil, false
 	}
 	newImage, imports, err := buildPlain(e.ctx, new, lintTargets)
 	if err != nil {
 		e.r.Incomplete("breaking fixture (new) does not build: " + err.Error())
-		return
+		return nil, false
 	}
 	if imports["a/v1/x.proto"] || imports["b/v1/y.proto"] || !imports["c/v1/z.proto"] {
 		e.r.Incomplete(fmt.Sprintf("breaking fixture: unexpected import flags %v", imports))
-		return
+		return nil, false
 	}
 	sources := map[string]string{}
 	for p, s := range old {
@@ -878,6 +887,14 @@ func partD(e *env, versions []string) {
 	}
 	sc := &scene{Kind: "breaking", Image: newImage, Against: oldImage, Src: &source{Imports: imports}, Sources: sources}
 	if !e.singletons(sc, versions, nil) {
+		return nil, false
+	}
+	return sc, true
+}
+
+func partD(e *env, versions []string) {
+	sc, ok := e.breakingScene(versions)
+	if !ok {
 		return
 	}
 	for _, v := range versions {
@@ -896,21 +913,12 @@ func partD(e *env, versions []string) {
 
 func partE(e *env) {
 	const dir = "proto"
-	bi, err := buildFilesIn(e.ctx, dir, lintFixture(), nil, []string{dir + "/a", dir + "/b"})
-	if err != nil {
-		e.r.Incomplete("sub-directory lint fixture does not build: " + err.Error())
-		return
-	}
-	if bi.Imports[lintFileA] || bi.Imports[lintFileB] || !bi.Imports[lintFileC] {
-		e.r.Incomplete(fmt.Sprintf("sub-directory lint fixture: unexpected import flags %v", bi.Imports))
-		return
-	}
-	sc := &scene{Kind: "lint", Image: bi.Image, Src: &source{Spans: bi.Spans, Imports: bi.Imports}, Sources: bi.Sources}
 	only := stringSet{}
 	for _, id := range lintPlanted {
 		only[id] = true
 	}
-	if !e.singletons(sc, []string{"v2"}, only) {
+	sc, ok := e.lintSceneIn(dir, nil, []string{"v2"}, only)
+	if !ok {
 		return
 	}
 	type pathCase struct {
